@@ -73,6 +73,8 @@ ViewSOD(version, nHashes, ord) == [version |-> version, hashes |-> nHashes, vers
 \* ---- identity summary: precedence rules -----------------------------------------------------------------
 \* dg11 \in {"absent", "neither", "name", "dob", "both"}: which of name-of-holder / full date of birth DG11 carries
 Dg11Shapes == {"absent", "neither", "name", "dob", "both"}
+\* dg12 \in Dg12Shapes: which document images DG12 carries; the summary shows each one as ITS OWN image
+Dg12Shapes == {"absent", "front", "rear", "both"}
 SummaryOf(dg11, dg2tpls, dg7n, com, sodVI) ==
   [nameSource   |-> IF dg11 \in {"name", "both"} THEN "dg11" ELSE "mrz",
    dobSource    |-> IF dg11 \in {"dob", "both"} THEN "dg11" ELSE "mrz",
@@ -81,6 +83,7 @@ SummaryOf(dg11, dg2tpls, dg7n, com, sodVI) ==
    faceImages   |-> NumImages(dg2tpls),
    signatures   |-> dg7n,
    versionSource|-> IF sodVI THEN "sod" ELSE IF com THEN "com" ELSE "none"]
+SummaryImages(dg12) == [front |-> dg12 \in {"front", "both"}, rear |-> dg12 \in {"rear", "both"}]
 
 \* ---- laws checked on the specification itself -------------------------------------------------------------
 \* every repeated element appears exactly once, in order
